@@ -19,8 +19,8 @@ RULE = ("(errorfree) pipeline cases with 1-2 samples and a known phasing written
         "two phase sets, a tie, a stale tag removed or a mate pair. Distinct = distinct generated case.")
 ASSUMPTIONS = [
     "reads never cut a variant (partial overlaps are C06's subject); with reference every fully covered variant is detected",
-    "for multi-segment read names only validity of the tag is judged (the reader legitimately drops a mate of opposite orientation)",
-    "BX clouds consist of reads of one haplotype; pooling is only validity-checked",
+    "a read pair is one read: both mates carry the tag decided from the alleles of both; supplementary/secondary records are only validity-checked in the error-free part",
+    "error-free part: BX clouds consist of reads of one haplotype and are validity-checked; the quality part models mixed clouds exactly (whole contig within the default distance cut-off)",
 ]
 
 
